@@ -793,6 +793,366 @@ Proof.
   destruct R as (Hc & Hi' & Hw' & _); auto.
 Qed.
 
+(* ------------------------------------------------------------------ requests *)
+
+Definition at_gate (g : gate_state) (r : rid) : Prop := In r (inflight g) \/ In r (waiting g).
+
+Lemma at_started n evs s r : reach n evs = Some s -> at_gate s r -> In r (started evs).
+Proof.
+  intros H [X|X]; pose proof (reach_inv _ _ _ H) as I.
+  - apply (inflight_entered _ _ _ _ I) in X. apply (i_ent_sub _ _ _ I), X.
+  - apply (waiting_not_entered _ _ _ _ I) in X. tauto.
+Qed.
+
+Lemma inflight_not_waiting n evs s r :
+  reach n evs = Some s -> In r (inflight s) -> ~ In r (waiting s).
+Proof.
+  intros H X Y; pose proof (reach_inv _ _ _ H) as I.
+  apply (inflight_entered _ _ _ _ I) in X. apply (waiting_not_entered _ _ _ _ I) in Y. tauto.
+Qed.
+
+(* what one gate event does to the set of renders at the gate or in flight *)
+Lemma step_at n evs s e s' :
+  reach n evs = Some s -> gate_step s e = Some s' ->
+  match e with
+  | Start r _ => ~ at_gate s r /\ (forall x, at_gate s' x <-> at_gate s x \/ x = r)
+  | CtxEnd _ => forall x, at_gate s' x <-> at_gate s x
+  | Enter r => at_gate s r /\ (forall x, at_gate s' x <-> at_gate s x)
+  | Leave r _ | Cancel r => at_gate s r /\ (forall x, at_gate s' x <-> at_gate s x /\ x <> r)
+  end.
+Proof.
+  intros H Hs. pose proof (reach_inv _ _ _ H) as I. unfold at_gate.
+  destruct e as [r b|r|r|r o|r]; simpl in Hs.
+  - destruct (memr r (used s)) eqn:Hu; [discriminate|]. apply memr_false in Hu.
+    split.
+    + intros X. apply Hu. rewrite (i_used _ _ _ I). exact (at_started _ _ _ _ H X).
+    + destruct (cap s =? 0); inversion Hs; subst s'; simpl; intros x;
+        rewrite in_app_iff; simpl; intuition.
+  - destruct (memr r (used s)); [|discriminate]. inversion Hs; subst s'; simpl. tauto.
+  - destruct (memr r (waiting s)) eqn:Hw; [|discriminate].
+    destruct (length (inflight s) <? cap s); [|discriminate].
+    simpl in Hs; inversion Hs; subst s'; simpl. apply memr_In in Hw.
+    split; [right; exact Hw|]. intros x. rewrite in_app_iff, del_In; simpl.
+    destruct (Nat.eq_dec x r) as [->|Hne]; intuition congruence.
+  - destruct (memr r (inflight s)) eqn:Hi; [|discriminate].
+    inversion Hs; subst s'; simpl. apply memr_In in Hi.
+    split; [left; exact Hi|]. intros x. rewrite del_In.
+    pose proof (inflight_not_waiting _ _ _ r H Hi) as Hnw.
+    destruct (Nat.eq_dec x r) as [->|Hne]; intuition congruence.
+  - destruct (memr r (waiting s)) eqn:Hw; [|discriminate].
+    destruct (memr r (ended s)); [|discriminate].
+    simpl in Hs; inversion Hs; subst s'; simpl. apply memr_In in Hw.
+    split; [right; exact Hw|]. intros x. rewrite del_In.
+    assert (Hni : ~ In r (inflight s)) by (intros X; exact (inflight_not_waiting _ _ _ r H X Hw)).
+    destruct (Nat.eq_dec x r) as [->|Hne]; intuition congruence.
+Qed.
+
+Lemma lookup_In q l r : lookup q l = Some r -> In (q, r) l.
+Proof.
+  unfold lookup. destruct (find (fun p => q =? fst p) l) as [[a b]|] eqn:E; [|discriminate].
+  intros X; inversion X; subst. apply find_some in E. destruct E as [Hin He].
+  simpl in He. apply Nat.eqb_eq in He. subst. exact Hin.
+Qed.
+
+Lemma In_lookup q r l :
+  In (q, r) l -> (forall r', In (q, r') l -> r' = r) -> lookup q l = Some r.
+Proof.
+  unfold lookup. induction l as [|[a b] l IH]; intros Hin Hf; [destruct Hin|].
+  simpl. destruct (q =? a) eqn:E.
+  - apply Nat.eqb_eq in E; subst a. simpl. f_equal. apply Hf. left; reflexivity.
+  - apply IH.
+    + destruct Hin as [X|X]; [inversion X; subst; rewrite Nat.eqb_refl in E; discriminate|exact X].
+    + intros r' X. apply Hf. right; exact X.
+Qed.
+
+Lemma drop_In q l p : In p (drop q l) <-> In p l /\ fst p <> q.
+Proof.
+  unfold drop. rewrite filter_In. split; intros [H1 H2]; split; auto.
+  - apply negb_true_iff, Nat.eqb_neq in H2. intros X. apply H2. symmetry. exact X.
+  - cbv beta. apply negb_true_iff, Nat.eqb_neq. intros X. apply H2. symmetry. exact X.
+Qed.
+
+Lemma NoDup_map_filter {A B} (f : A -> B) (p : A -> bool) l :
+  NoDup (map f l) -> NoDup (map f (filter p l)).
+Proof.
+  induction l as [|a l IH]; simpl; intros H; [constructor|].
+  inversion H as [|x y Hn Hd]; subst. destruct (p a); simpl; [|apply IH; exact Hd].
+  constructor; [|apply IH; exact Hd].
+  intros X. apply Hn. apply in_map_iff in X. destruct X as [z [Hz Hi]].
+  apply filter_In in Hi. apply in_map_iff. exists z. tauto.
+Qed.
+
+Lemma req_run_app s evs evs' : req_run s (evs ++ evs') = req_run (req_run s evs) evs'.
+Proof. unfold req_run; apply fold_left_app. Qed.
+
+Lemma req_reach_snoc n evs e : req_reach n (evs ++ [e]) = req_step_opt (req_reach n evs) e.
+Proof. unfold req_reach; rewrite req_run_app; reflexivity. Qed.
+
+(* the invariant of the request machine *)
+Record QInv (n : nat) (s : req_state) : Prop := {
+  q_reach : reach n (rev (trace s)) = Some (gate s);
+  q_at    : forall r, at_gate (gate s) r <-> exists q, In (q, r) (cur s);
+  q_fun   : forall q r q' r', In (q, r) (cur s) -> In (q', r') (cur s) -> (q = q' <-> r = r');
+  q_nd    : NoDup (map snd (cur s));
+  q_used  : forall q r, In (q, r) (cur s) -> In q (qused s);
+}.
+
+Lemma qinv_init n : QInv n (req_init n).
+Proof.
+  constructor; simpl.
+  - reflexivity.
+  - intros r; split; [intros [[]|[]]|intros [q []]].
+  - intros q r q' r' [].
+  - constructor.
+  - intros q r [].
+Qed.
+
+Lemma reach_trace n tr g evs g' :
+  reach n (rev tr) = Some g -> run (Some g) evs = Some g' -> reach n (rev (rev evs ++ tr)) = Some g'.
+Proof.
+  intros H R. rewrite rev_app_distr, rev_involutive, reach_app, H. exact R.
+Qed.
+
+(* the request leaves the gate for good: Leave or Cancel of its render *)
+Lemma qinv_gone n s q r g' e :
+  QInv n s -> lookup q (cur s) = Some r ->
+  (e = Cancel r \/ exists o, e = Leave r o) ->
+  gate_step (gate s) e = Some g' ->
+  QInv n (mk_req g' (drop q (cur s)) (qused s) (qover s) (rev [e] ++ trace s)).
+Proof.
+  intros Q L He Hs. apply lookup_In in L.
+  pose proof (step_at _ _ _ _ _ (q_reach _ _ Q) Hs) as A.
+  assert (A' : at_gate (gate s) r /\ (forall x, at_gate g' x <-> at_gate (gate s) x /\ x <> r)).
+  { destruct He as [->|[o ->]]; exact A. }
+  clear A. destruct A' as [_ A].
+  constructor; cbn [gate cur qused qover trace].
+  - apply (reach_trace _ _ _ _ _ (q_reach _ _ Q)). simpl. exact Hs.
+  - intros x. rewrite A, (q_at _ _ Q). split.
+    + intros [[q0 Hq0] Hne]. exists q0. apply drop_In. split; [exact Hq0|]. simpl.
+      intros ->. apply Hne. symmetry. apply (q_fun _ _ Q _ _ _ _ L Hq0). reflexivity.
+    + intros [q0 Hq0]. apply drop_In in Hq0. destruct Hq0 as [Hq0 Hne]. simpl in Hne.
+      split; [exists q0; exact Hq0|]. intros ->. apply Hne.
+      apply (q_fun _ _ Q _ _ _ _ Hq0 L). reflexivity.
+  - intros a b a' b' X Y. apply drop_In in X, Y. apply (q_fun _ _ Q); tauto.
+  - apply NoDup_map_filter. exact (q_nd _ _ Q).
+  - intros a b X. apply drop_In in X. apply (q_used _ _ Q a b). tauto.
+Qed.
+
+(* a new render [r] for the request [q], which has no render at the gate *)
+Lemma qinv_new n tr g0 c qu q r b g' :
+  reach n (rev tr) = Some g0 ->
+  (forall x, at_gate g0 x <-> exists q0, In (q0, x) c) ->
+  (forall a x a' x', In (a, x) c -> In (a', x') c -> (a = a' <-> x = x')) ->
+  NoDup (map snd c) ->
+  (forall a x, In (a, x) c -> In a qu) ->
+  (forall x, ~ In (q, x) c) ->
+  gate_step g0 (Start r b) = Some g' ->
+  forall qu' qo', incl (q :: qu) qu' ->
+  QInv n (mk_req g' ((q, r) :: c) qu' qo' (Start r b :: tr)).
+Proof.
+  intros H Hat Hfun Hnd Hused Hq Hs qu' qo' Hincl.
+  destruct (step_at _ _ _ _ _ H Hs) as [Hfresh A].
+  assert (Hr : forall a, ~ In (a, r) c).
+  { intros a X. apply Hfresh. apply Hat. exists a; exact X. }
+  constructor; cbn [gate cur qused qover trace].
+  - change (Start r b :: tr) with (rev [Start r b] ++ tr).
+    apply (reach_trace _ _ _ _ _ H). simpl. exact Hs.
+  - intros x. rewrite A, Hat. split.
+    + intros [[q0 X]| ->]; [exists q0; right; exact X|exists q; left; reflexivity].
+    + intros [q0 [X|X]]; [inversion X; subst; right; reflexivity|left; exists q0; exact X].
+  - intros a x a' x' [X|X] [Y|Y].
+    + inversion X; inversion Y; subst. tauto.
+    + inversion X; subst. split; intros E; subst; exfalso; [exact (Hq _ Y)|exact (Hr _ Y)].
+    + inversion Y; subst. split; intros E; subst; exfalso; [exact (Hq _ X)|exact (Hr _ X)].
+    + exact (Hfun _ _ _ _ X Y).
+  - simpl. constructor; [|exact Hnd].
+    intros X. apply in_map_iff in X. destruct X as [[a x] [E X]]. simpl in E; subst x.
+    exact (Hr _ X).
+  - intros a x [X|X]; apply Hincl; [inversion X; subst; left; reflexivity|right; exact (Hused _ _ X)].
+Qed.
+
+Lemma qinv_step n s e s' : QInv n s -> req_step s e = Some s' -> QInv n s'.
+Proof.
+  intros Q H. unfold req_step in H.
+  destruct (emit s e) as [evs|] eqn:E; [|discriminate].
+  destruct (run (Some (gate s)) evs) as [g|] eqn:R; [|discriminate].
+  inversion H; subst s'; clear H.
+  destruct e as [q r b|q|q|q r'|q o|q]; simpl in E.
+  - (* RCall *)
+    destruct (memr q (qused s)) eqn:Hu; [discriminate|]. inversion E; subst evs; clear E.
+    apply memr_false in Hu. unfold run in R; cbn [fold_left step_opt] in R.
+    apply (qinv_new n (trace s) (gate s) (cur s) (qused s) q r b g).
+    + exact (q_reach _ _ Q).
+    + exact (q_at _ _ Q).
+    + exact (q_fun _ _ Q).
+    + exact (q_nd _ _ Q).
+    + exact (q_used _ _ Q).
+    + intros x X. apply Hu. exact (q_used _ _ Q _ _ X).
+    + exact R.
+    + apply incl_refl.
+  - (* REnd *)
+    destruct (lookup q (cur s)) as [r|] eqn:L.
+    + inversion E; subst evs; clear E. unfold run in R; cbn [fold_left step_opt] in R.
+      pose proof (step_at _ _ _ _ _ (q_reach _ _ Q) R) as A. simpl in A.
+      constructor; cbn [gate cur qused qover trace].
+      * apply (reach_trace _ _ _ _ _ (q_reach _ _ Q)). simpl. exact R.
+      * intros x. rewrite A. exact (q_at _ _ Q x).
+      * exact (q_fun _ _ Q).
+      * exact (q_nd _ _ Q).
+      * exact (q_used _ _ Q).
+    + destruct (memr q (qused s)); [|discriminate]. inversion E; subst evs; clear E.
+      unfold run in R; cbn [fold_left step_opt] in R. inversion R; subst g.
+      constructor; cbn [gate cur qused qover trace]; simpl.
+      * exact (q_reach _ _ Q).
+      * exact (q_at _ _ Q).
+      * exact (q_fun _ _ Q).
+      * exact (q_nd _ _ Q).
+      * exact (q_used _ _ Q).
+  - (* REnter *)
+    destruct (lookup q (cur s)) as [r|] eqn:L; [|discriminate].
+    inversion E; subst evs; clear E. unfold run in R; cbn [fold_left step_opt] in R.
+    pose proof (step_at _ _ _ _ _ (q_reach _ _ Q) R) as A. simpl in A. destruct A as [_ A].
+    constructor; cbn [gate cur qused qover trace].
+    + apply (reach_trace _ _ _ _ _ (q_reach _ _ Q)). simpl. exact R.
+    + intros x. rewrite A. exact (q_at _ _ Q x).
+    + exact (q_fun _ _ Q).
+    + exact (q_nd _ _ Q).
+    + exact (q_used _ _ Q).
+  - (* RNext: the render in flight leaves, the next one is started *)
+    destruct (lookup q (cur s)) as [r|] eqn:L; [|discriminate].
+    inversion E; subst evs; clear E. unfold run in R; cbn [fold_left step_opt] in R.
+    destruct (gate_step (gate s) (Leave r o_ok)) as [g1|] eqn:R1; [|discriminate].
+    pose proof (qinv_gone n s q r g1 (Leave r o_ok) Q L (or_intror (ex_intro _ o_ok eq_refl)) R1) as Q1.
+    pose proof (lookup_In _ _ _ L) as Lin.
+    apply (qinv_new n (rev [Leave r o_ok] ++ trace s) g1 (drop q (cur s)) (qused s)
+                    q r' (memr q (qover s)) g).
+    + exact (q_reach _ _ Q1).
+    + exact (q_at _ _ Q1).
+    + exact (q_fun _ _ Q1).
+    + exact (q_nd _ _ Q1).
+    + exact (q_used _ _ Q1).
+    + intros x X. apply drop_In in X. simpl in X. tauto.
+    + exact R.
+    + intros a [<-|X]; [exact (q_used _ _ Q _ _ Lin)|exact X].
+  - (* RReturn *)
+    destruct (lookup q (cur s)) as [r|] eqn:L; [|discriminate].
+    inversion E; subst evs; clear E. unfold run in R; cbn [fold_left step_opt] in R.
+    exact (qinv_gone n s q r g (Leave r o) Q L (or_intror (ex_intro _ o eq_refl)) R).
+  - (* RError *)
+    destruct (lookup q (cur s)) as [r|] eqn:L; [|discriminate].
+    inversion E; subst evs; clear E. unfold run in R; cbn [fold_left step_opt] in R.
+    exact (qinv_gone n s q r g (Cancel r) Q L (or_introl eq_refl) R).
+Qed.
+
+Theorem req_reach_inv n qevs s : req_reach n qevs = Some s -> QInv n s.
+Proof.
+  revert s. induction qevs as [|e qevs IH] using rev_ind; intros s H.
+  - inversion H; subst. apply qinv_init.
+  - rewrite req_reach_snoc in H. destruct (req_reach n qevs) as [s0|]; [|discriminate].
+    simpl in H. exact (qinv_step _ _ _ _ (IH _ eq_refl) H).
+Qed.
+
+(* every accepted request history is an accepted history of the gate *)
+Theorem req_refines n qevs s :
+  req_reach n qevs = Some s -> reach n (rev (trace s)) = Some (gate s).
+Proof. intros H; exact (q_reach _ _ (req_reach_inv _ _ _ H)). Qed.
+
+(* the renders at the gate or in flight are exactly the current renders of the
+   requests in progress, one per request *)
+Theorem req_renders n qevs s :
+  req_reach n qevs = Some s ->
+  (forall r, In r (inflight (gate s)) \/ In r (waiting (gate s)) <-> exists q, In (q, r) (cur s)) /\
+  (forall q r q' r', In (q, r) (cur s) -> In (q', r') (cur s) -> (q = q' <-> r = r')).
+Proof.
+  intros H; pose proof (req_reach_inv _ _ _ H) as Q. split; [exact (q_at _ _ Q)|exact (q_fun _ _ Q)].
+Qed.
+
+(* at most n requests have a template executing *)
+Theorem req_bound n qevs s :
+  0 < n -> req_reach n qevs = Some s -> length (q_inside s) <= n.
+Proof.
+  intros Hn H; pose proof (req_reach_inv _ _ _ H) as Q.
+  pose proof (gate_bound _ _ _ Hn (q_reach _ _ Q)) as B.
+  unfold q_inside. rewrite map_length.
+  rewrite <- (map_length snd).
+  eapply Nat.le_trans; [|exact B].
+  apply NoDup_incl_length.
+  - apply NoDup_map_filter. exact (q_nd _ _ Q).
+  - intros x X. apply in_map_iff in X. destruct X as [[a b] [E X]]. simpl in E; subst b.
+    apply filter_In in X. destruct X as [_ X]. simpl in X. apply memr_In in X. exact X.
+Qed.
+
+(* when every request has returned - whichever way: result, error, panic, context
+   error, after any number of partials - nothing is in flight, nobody waits, and n
+   fresh renders all get past the gate *)
+Theorem req_all_returned n qevs s :
+  req_reach n qevs = Some s -> cur s = [] ->
+  inflight (gate s) = [] /\ waiting (gate s) = [] /\
+  forall rs, NoDup rs -> (forall r, In r rs -> ~ In r (started (rev (trace s)))) -> length rs = n ->
+    exists g', reach n (rev (trace s) ++ refill rs) = Some g' /\
+               (0 < n -> inflight g' = rs /\ waiting g' = []).
+Proof.
+  intros H Hc; pose proof (req_reach_inv _ _ _ H) as Q.
+  pose proof (q_reach _ _ Q) as R. pose proof (reach_inv _ _ _ R) as I.
+  assert (Hi : inflight (gate s) = []).
+  { destruct (inflight (gate s)) as [|x l] eqn:E; [reflexivity|exfalso].
+    assert (X : at_gate (gate s) x) by (left; rewrite E; left; reflexivity).
+    apply (q_at _ _ Q) in X. rewrite Hc in X. destruct X as [q []]. }
+  assert (Hw : waiting (gate s) = []).
+  { destruct (waiting (gate s)) as [|x l] eqn:E; [reflexivity|exfalso].
+    assert (X : at_gate (gate s) x) by (right; rewrite E; left; reflexivity).
+    apply (q_at _ _ Q) in X. rewrite Hc in X. destruct X as [q []]. }
+  split; [exact Hi|]. split; [exact Hw|].
+  intros rs Hnd Hfresh Hlen. rewrite reach_app, R.
+  destruct n as [|n'].
+  - destruct rs; [|discriminate]. exists (gate s); split; [reflexivity|intros; lia].
+  - pose proof (i_cap _ _ _ I) as Hcap.
+    rewrite refill_accepted; try assumption; try lia.
+    + eexists; split; [reflexivity|]. intros _; simpl; auto.
+    + intros r Hr; rewrite (i_used _ _ _ I); exact (Hfresh r Hr).
+Qed.
+
+(* every way out of a request whose template is executing is possible and hands the
+   slot back: returning for good (result of the last partial, error, panic) ... *)
+Theorem req_return_releases n qevs s q r o :
+  req_reach n qevs = Some s -> In (q, r) (cur s) -> In r (inflight (gate s)) ->
+  exists s', req_step s (RReturn q o) = Some s' /\
+             inflight (gate s') = del r (inflight (gate s)) /\
+             waiting (gate s') = waiting (gate s) /\ cur s' = drop q (cur s) /\
+             S (length (inflight (gate s'))) = length (inflight (gate s)).
+Proof.
+  intros H Hin Hi; pose proof (req_reach_inv _ _ _ H) as Q.
+  assert (L : lookup q (cur s) = Some r).
+  { apply In_lookup; [exact Hin|]. intros r' X. symmetry. apply (q_fun _ _ Q _ _ _ _ Hin X). reflexivity. }
+  unfold req_step; simpl. rewrite L. simpl. apply memr_In in Hi as Hm. rewrite Hm.
+  eexists; split; [reflexivity|]; simpl.
+  repeat (split; [reflexivity|]).
+  apply del_length_NoDup; [exact (inflight_NoDup _ _ _ (q_reach _ _ Q))|exact Hi].
+Qed.
+
+(* ... and going on to the next partial: the slot is handed back first, the next
+   render queues at the gate like any other caller *)
+Theorem req_next_releases n qevs s q r r' :
+  0 < n -> req_reach n qevs = Some s -> In (q, r) (cur s) -> In r (inflight (gate s)) ->
+  ~ In r' (started (rev (trace s))) ->
+  exists s', req_step s (RNext q r') = Some s' /\
+             inflight (gate s') = del r (inflight (gate s)) /\
+             waiting (gate s') = waiting (gate s) ++ [r'] /\
+             cur s' = (q, r') :: drop q (cur s).
+Proof.
+  intros Hn H Hin Hi Hfresh; pose proof (req_reach_inv _ _ _ H) as Q.
+  pose proof (reach_inv _ _ _ (q_reach _ _ Q)) as I.
+  assert (L : lookup q (cur s) = Some r).
+  { apply In_lookup; [exact Hin|]. intros x X. symmetry. apply (q_fun _ _ Q _ _ _ _ Hin X). reflexivity. }
+  assert (Hu : memr r' (used (gate s)) = false).
+  { apply memr_false. rewrite (i_used _ _ _ I). exact Hfresh. }
+  assert (Hc : (cap (gate s) =? 0) = false).
+  { apply Nat.eqb_neq. rewrite (i_cap _ _ _ I). lia. }
+  unfold req_step; simpl. rewrite L. unfold run; simpl. apply memr_In in Hi as Hm. rewrite Hm.
+  simpl. rewrite Hu, Hc.
+  eexists; split; [reflexivity|]; simpl. auto.
+Qed.
+
 (* ------------------------------------------------------------------ non-vacuity *)
 
 (* limit 2, five renders; 3 is cancelled while waiting, 1 panics, 4 fails in a
@@ -914,3 +1274,49 @@ Proof. eexists; vm_compute; split; reflexivity. Qed.
 Example nv_full_gate_hyps :
   exists s, reach 2 (firstn 5 nv_round) = Some s /\ In 2 (waiting s) /\ cap s <= length (inflight s).
 Proof. eexists; split; [vm_compute; reflexivity|]. simpl; split; [auto|lia]. Qed.
+
+(* requests.  Limit 1: request 1 (RenderPartials, three partials) and request 2
+   (Render) are called; 1 gets the slot; its first partial returns its result -
+   the slot goes back and 1 queues again behind 2; 2 gets the slot and panics;
+   1 gets the slot for its second partial, goes on, its context ends, and its
+   third render gets the context error at the free gate; all is as at the start *)
+Definition nv_req_trace : list req_event :=
+  [RCall 1 8 false; RCall 2 16 false; REnter 1; RNext 1 9; REnter 2; RReturn 2 o_panic;
+   REnter 1; REnd 1; RNext 1 10; RError 1].
+
+Example nv_req_accepted :
+  match req_reach 1 nv_req_trace with
+  | Some s => (inflight (gate s), waiting (gate s), cur s, rev (trace s))
+  | None => ([], [], [], [])
+  end =
+  ([], [], [],
+   [Start 8 false; Start 16 false; Enter 8; Leave 8 o_ok; Start 9 false; Enter 16; Leave 16 o_panic;
+    Enter 9; CtxEnd 9; Leave 9 o_ok; Start 10 true; Cancel 10]).
+Proof. vm_compute. reflexivity. Qed.
+
+Example nv_req_midway :
+  match req_reach 1 (firstn 5 nv_req_trace) with
+  | Some s => Some (q_inside s, q_waiting s)
+  | None => None
+  end = Some ([2], [1]).
+Proof. vm_compute. reflexivity. Qed.
+
+(* rejected: a request that keeps its slot from one partial to the next while another
+   request gets in (two requests inside at limit 1) *)
+Example nv_req_reject_kept_slot :
+  req_reach 1 [RCall 1 8 false; RCall 2 16 false; REnter 1; REnter 2] = None.
+Proof. vm_compute. reflexivity. Qed.
+
+(* rejected: the context error for a request whose render is in flight *)
+Example nv_req_reject_error_inside :
+  req_reach 1 [RCall 1 8 false; REnter 1; REnd 1; RError 1] = None.
+Proof. vm_compute. reflexivity. Qed.
+
+(* the hypotheses of req_next_releases / req_return_releases are satisfiable *)
+Example nv_req_hyps :
+  exists s, req_reach 1 [RCall 1 8 false; REnter 1] = Some s /\ In (1, 8) (cur s) /\
+            In 8 (inflight (gate s)) /\ ~ In 9 (started (rev (trace s))).
+Proof.
+  eexists; split; [vm_compute; reflexivity|]. simpl.
+  split; [auto|]. split; [auto|]. intros [X|[]]; discriminate.
+Qed.
